@@ -40,6 +40,8 @@ def alphabet():
             ops.append(("q", k, p))
     for k in range(len(KEYS)):
         ops.append(("d", k))
+    for k in range(len(KEYS)):
+        ops.append(("w", k))          # a withdrawn market: a quote with NaN on both sides
     for c in range(3):
         ops.append(("c", c))
     for c in range(3):
@@ -84,9 +86,9 @@ def ref_apply(books, now, op):
         return books, CLOCKS[op[1]]
     sym = resolve(KEYS[op[1]], now)
     bk = books.setdefault(sym, RefBook())
-    if op[0] == "q":
+    if op[0] in ("q", "w"):
         if bk.alive:
-            bid, ask = pairs()[op[2]]
+            bid, ask = pairs()[op[2]] if op[0] == "q" else (NAN, NAN)
             bk.bid, bk.ask = bid, ask
             bk.hist.append((T0, bid, ask))
     else:
@@ -103,8 +105,8 @@ def impl_apply(ex, op):
             CHAIN.lead_contract(month=1)      # a query: must not change what the chain key addresses
         except Exception:
             pass                              # no deferred month listed once the last contract leads
-    elif op[0] == "q":
-        bid, ask = pairs()[op[2]]
+    elif op[0] in ("q", "w"):
+        bid, ask = pairs()[op[2]] if op[0] == "q" else (NAN, NAN)
         ex.process_EventNBBO(EventNBBO(T0, KEYS[op[1]], bid, ask))
     else:
         ex.process_EventContractDiscontinued(EventContractDiscontinued(T0, KEYS[op[1]]))
@@ -141,7 +143,7 @@ def compare(ex, books, now):
             msgs.append("is_alive of key %s is %r, expected %r" % (name, book.is_alive, rb.alive))
         h = book.history
         got_h = list(zip(h["time"], h["bid_price"], h["ask_price"]))
-        if got_h != rb.hist:
+        if [(t, repr(float(b_)), repr(float(a_))) for t, b_, a_ in got_h] != [(t, repr(float(b_)), repr(float(a_))) for t, b_, a_ in rb.hist]:
             msgs.append("history of key %s is %r, expected %r" % (name, got_h[-4:], rb.hist[-4:]))
         if len(h["mid_price"]) != len(rb.hist) or any(not same(m, (b_ + a_) / 2) for m, (_, b_, a_) in zip(h["mid_price"], rb.hist)):
             msgs.append("mid-price history of key %s inconsistent" % name)
